@@ -4,7 +4,7 @@ from harness import ll_common as ll
 PROPERTY = "C01"
 STATEFUL = True
 READY = False
-THEOREMS = []
+THEOREMS = ["C01.run_sound", "C01.table_wf", "C01.parse_valid_partial"]
 RULE = ("one case = one generated grammar (3 generators + malformed stream, 5 token configurations, permuted names), "
         "constructed with smart_factorization True and False, each followed by every token string up to the tier's "
         "length; non-trivial = at least one returned tree and at least one ParsingError in the case; distinct by protocol text")
